@@ -355,6 +355,25 @@ def do_filters_sequence(req):
     return {'violates': False}
 
 
+def _log_filter_grid():
+    """the process filter of the log listing compares the filter text with the process name and with the decimal process id:
+    names made of digits, ids spelled with leading zeros, an id that is another process' name"""
+    tried = 0
+    for fp in ('2048', '007', '7', 'p', ''):
+        for proc, pid in (('2048', 7), ('p', 2048), ('7', 1), ('p', 7), ('', 0)):
+            for tid_f in (None, 5):
+                tried += 1
+                rq = {'kind': 'filters', 'method': 'os_log_events', 'config': {'filter_tid': tid_f, 'filter_process': fp, 'filter_class': [], 'filter_subclass': []},
+                      'element': {'kind': 'log', 'thread_identifier': 5, 'process': proc, 'process_identifier': pid}}
+                r = do_filters(rq)
+                if r['violates']:
+                    r['request'] = rq
+                    r['what'] = 'os_log_events with filter_process=%r over a record of process %r (pid %d) reports %r, the filter selects %r' % (
+                        fp, proc, pid, r.get('got'), r.get('expected'))
+                    return tried, r
+    return tried, None
+
+
 def do_filters_search(req):
     tried = 0
     for fc, fsc in (([4], []), ([], []), ([7], []), ([], [0x040c]), ([3, 4], []), ([31], [0x0703]), ([4], [0x040c]), ([4, 7], [0x0301, 0x040c])):
@@ -368,6 +387,10 @@ def do_filters_search(req):
                     if r['violates']:
                         r['request'] = {'kind': 'filters_sequence', 'config': cfg, 'methods': methods}
                         return {'tried': tried, 'bound': 'grid of filter settings x request sequences on one parser object over the demonstration stream', 'found': r}
+    n2, r2 = _log_filter_grid()
+    tried += n2
+    if r2 is not None:
+        return {'tried': tried, 'bound': 'log process-filter grid (digit-only names, leading zeros)', 'found': r2}
     return {'tried': tried, 'bound': 'grid of filter settings x request sequences on one parser object over the demonstration stream', 'found': None}
 
 
@@ -741,6 +764,8 @@ def do_v2_search(req):
                  # boundary words of the thread map: ids with the top bit set, the longest name the field holds, a non-ASCII name
                  {'kind': 'v2_case', 'threads': [[2 ** 64 - 1, 0xffffffff, 'x' * 19], [2 ** 63, 0x80000000, 'ghost'], [7, 0x7fffffff, ''],
                                                  [8, 0, 'kernel_task'], [9, 5, 'caf\u00e9']], 'pad': 8, 'records': [base_rec.hex()], 'preload': None},
+                 # the command field is a C string: bytes after its first NUL (left over from a longer earlier name) are not part of it
+                 {'kind': 'v2_case', 'threads': [[1, 5, 'zsh\x00ingboardd'], [2, 6, 'a\x00\x00b']], 'pad': 0, 'records': [base_rec.hex()], 'preload': None},
                  # a thread id / a process id declared more than once: the later entry wins, per table
                  {'kind': 'v2_case', 'threads': [[1, 2, 'a'], [3, 2, 'b'], [1, 2, 'c'], [3, 4, 'd']], 'pad': 0, 'records': [base_rec.hex()], 'preload': None}):
         tried += 1
@@ -2174,6 +2199,12 @@ def do_kd_buf_search(req):
     from pykdebugparser.kevent import from_kd_buf
     rnd = random.Random(req.get('seed', 0))
     recs = [bytes(64), b'\xff' * 64]
+    # bytes that text-oriented helpers treat specially: ASCII whitespace, NUL-terminated prefixes, quotes, digits, high bytes
+    for fill in (b' ', b'\t', b'\n', b'\r', b'\x0b', b'\x0c', b'0', b'"', b'\x7f', b'\x80', b'a'):
+        recs.append(fill * 64)
+        recs.append(bytes(8) + fill * 32 + bytes(24))
+        recs.append(b'\x01' * 8 + (fill * 7 + b'\x00') * 4 + b'\x02' * 24)
+    recs.append(bytes(8) + b' \t\n\r\x0b\x0c' * 5 + b'  ' + bytes(24))
     for i in range(512):
         b = bytearray(64)
         b[i // 8] |= 1 << (i % 8)
